@@ -115,7 +115,7 @@ Qed.
 
 Lemma scan_record so : forall fs its curr out rest,
   fs <> [] -> Forall (bfree (s_delim so)) fs -> Forall (bfree (s_eol so)) fs ->
-  N.eqb (s_delim so) (s_eol so) = false ->
+  ((1 < length fs)%nat -> N.eqb (s_delim so) (s_eol so) = false) ->
   1 <= curr -> (curr = 1 -> fs <> [[]]) ->
   scan_chunk so its curr false [] (intercalate [s_delim so] fs ++ s_eol so :: rest) out
   = match stream_scan so its curr fs with
@@ -138,12 +138,13 @@ Proof.
     destruct (pff so its' curr) as [t|]; [|reflexivity]. rewrite <- ?app_assoc. reflexivity.
   - change (intercalate [s_delim so] (f :: g :: fs')) with (f ++ [s_delim so] ++ intercalate [s_delim so] (g :: fs')).
     rewrite <- !app_assoc. rewrite scan_field by assumption. rewrite app_nil_r.
-    cbn [app scan_chunk]. rewrite Hde, N.eqb_refl, rev_involutive.
+    pose proof (Hde ltac:(cbn; lia)) as Hde1.
+    cbn [app scan_chunk]. rewrite Hde1, N.eqb_refl, rev_involutive.
     rewrite stream_scan_cons2. cbv zeta.
     destruct (print_bof so its curr f false true) as [o its']. cbn [fst snd].
     destruct (side_eqb (SSome curr) (s_lif so)).
     + destruct (pff so its' curr) as [t|]; [|reflexivity]. rewrite <- ?app_assoc. reflexivity.
-    + etransitivity; [apply (IH its' (curr + 1) (out ++ o) rest ltac:(discriminate) Hd2 He2 Hde ltac:(lia) ltac:(intros; lia))|].
+    + etransitivity; [apply (IH its' (curr + 1) (out ++ o) rest ltac:(discriminate) Hd2 He2 (fun _ => Hde1) ltac:(lia) ltac:(intros; lia))|].
       destruct (stream_scan so its' (curr + 1) (g :: fs')); cbn [sprepend]; rewrite <- ?app_assoc; reflexivity.
 Qed.
 
@@ -151,7 +152,7 @@ Qed.
     early stop, is the field-level function *)
 Lemma rec_chunks_record so fs its curr out rest cs started :
   fs <> [] -> Forall (bfree (s_delim so)) fs -> Forall (bfree (s_eol so)) fs ->
-  N.eqb (s_delim so) (s_eol so) = false ->
+  ((1 < length fs)%nat -> N.eqb (s_delim so) (s_eol so) = false) ->
   1 <= curr -> (curr = 1 -> fs <> [[]]) ->
   rec_chunks so (Normal its curr false) started
              ((intercalate [s_delim so] fs ++ s_eol so :: rest) :: cs) out
@@ -175,7 +176,11 @@ Proof.
       + destruct (pff so its' curr); [|discriminate]. injection Es as _ <-. exact He2.
       + destruct (stream_scan so its' (curr + 1) (g :: fs')) as [y|y rem'|] eqn:E2; cbn [sprepend] in Es; try discriminate.
         injection Es as _ <-. eapply IH; [exact E2 | exact He2]. }
-  pose proof (after_eol_fields _ _ rem rest Hrem Hde) as Ha.
+  assert (Hlen2 : (1 < length fs)%nat).
+  { destruct fs as [|f [|g fs']]; [contradiction | | cbn; lia]. exfalso.
+    cbn [stream_scan] in Es. destruct (print_bof so its curr f false true) as [o0 its0]. cbn [fst snd] in Es.
+    destruct (pff so its0 curr); discriminate. }
+  pose proof (after_eol_fields _ _ rem rest Hrem (Hde Hlen2)) as Ha.
   match goal with |- match ?X with _ => _ end = _ => replace X with (Some rest) by (symmetry; exact Ha) end.
   rewrite <- app_assoc. reflexivity.
 Qed.
@@ -737,7 +742,7 @@ Theorem C03_record o so r rest cs :
   stream_opt o = Some so ->
   Forall item_nz (items (o_bounds o)) ->
   no_adjacent_fillers (items (o_bounds o)) -> bounds_only (items (o_bounds o)) <> [] ->
-  r <> [] -> bfree (s_eol so) r -> N.eqb (s_delim so) (s_eol so) = false ->
+  r <> [] -> bfree (s_eol so) r ->
   asc 0 (Z.of_nat (length (split_on (s_delim so) r))) (items (o_bounds o)) ->
   rec_chunks so (Normal (s_items so) 1 false) false ((r ++ s_eol so :: rest) :: cs) []
   = match cut_str o r with
@@ -745,10 +750,15 @@ Theorem C03_record o so r rest cs :
     | _ => RFail
     end.
 Proof.
-  intros Hso Hnz Hnaf Hb Hr He Hde Hasc.
+  intros Hso Hnz Hnaf Hb Hr He Hasc.
   destruct (stream_opt_view o so Hso) as [Hd [Hrep [Hj [Hf [Hi [Hlif [Heol [Hpl [Ht Hs]]]]]]]]].
   set (d := s_delim so) in *. set (F := split_on d r) in *.
   assert (HF : F <> []) by apply split_on_ne.
+  (* when the delimiter is the terminator itself, a record has a single field *)
+  assert (Hde : (1 < length F)%nat -> N.eqb d (s_eol so) = false).
+  { intros Hlen. destruct (N.eqb d (s_eol so)) eqn:E; [|reflexivity]. exfalso.
+    apply N.eqb_eq in E. unfold F in Hlen. rewrite (split_on_dfree_one d r) in Hlen; [cbn in Hlen; lia|].
+    unfold dfree. rewrite E. exact He. }
   rewrite (general_plain_record o d r Hpl Ht Hs Hr Hnz).
   rewrite <- Hrep, <- Hj, <- Hf. fold F.
   rewrite <- (tail_spec_is_spec_items so F HF (items (o_bounds o)) 0 Hasc ltac:(lia)).
@@ -926,14 +936,13 @@ Theorem C03_whole_input o so :
   stream_opt o = Some so ->
   Forall item_nz (items (o_bounds o)) ->
   no_adjacent_fillers (items (o_bounds o)) -> bounds_only (items (o_bounds o)) <> [] ->
-  N.eqb (s_delim so) (s_eol so) = false ->
   forall fuel input acc,
     (length input < fuel)%nat ->
     Forall (record_ok so (items (o_bounds o))) (records (s_eol so) input) ->
     Some (run_stream_fuel fuel so (push_rest input []) acc)
     = run_records (cut_str o) (records (s_eol so) input) acc.
 Proof.
-  intros Hso Hnz Hnaf Hb Hde.
+  intros Hso Hnz Hnaf Hb.
   destruct (stream_opt_view o so Hso) as [Hd [Hrep [Hj [Hf [Hi [Hlif [Heol [Hpl [Ht Hs]]]]]]]]].
   assert (Hplain : forall r, r <> [] -> exists y, cut_str o r = Some y /\ (y = RErr \/ exists x, y = ROk x)).
   { intros r Hr. rewrite (general_plain_record o (s_delim so) r Hpl Ht Hs Hr Hnz).
@@ -951,7 +960,7 @@ Proof.
       destruct Hok1 as [E|Hasc]; [contradiction|].
       replace (push_rest r []) with [r] by reflexivity.
       rewrite (last_record_without_eol so r (s_items so) 1 [] false Hr Hfree ltac:(rewrite Hi; exact Hnaf) ltac:(lia)).
-      pose proof (C03_record o so r [] [] Hso Hnz Hnaf Hb Hr Hfree Hde Hasc) as HR.
+      pose proof (C03_record o so r [] [] Hso Hnz Hnaf Hb Hr Hfree Hasc) as HR.
       cbn [app] in HR. change (r ++ [s_eol so]) with (r ++ s_eol so :: []). rewrite HR.
       cbn [run_records]. destruct (Hplain r Hr) as [y [Ey [->|[x ->]]]]; rewrite Ey; reflexivity.
   - pose proof (records_first (s_eol so) r rest Hfree) as Hrf.
@@ -970,7 +979,7 @@ Proof.
       apply IH; assumption.
     + set (r := c0 :: r0) in *. assert (Hr : r <> []) by discriminate.
       destruct Hok1 as [E|Hasc]; [discriminate|].
-      rewrite (C03_record o so r rest [] Hso Hnz Hnaf Hb Hr Hfree Hde Hasc).
+      rewrite (C03_record o so r rest [] Hso Hnz Hnaf Hb Hr Hfree Hasc).
       cbn [run_records]. destruct (Hplain r Hr) as [y [Ey [->|[x ->]]]]; rewrite Ey; [reflexivity|].
       cbn [app]. apply IH; assumption.
 Qed.
@@ -979,13 +988,12 @@ Corollary C03_run o so input :
   stream_opt o = Some so ->
   Forall item_nz (items (o_bounds o)) ->
   no_adjacent_fillers (items (o_bounds o)) -> bounds_only (items (o_bounds o)) <> [] ->
-  N.eqb (s_delim so) (s_eol so) = false ->
   Forall (record_ok so (items (o_bounds o))) (records (s_eol so) input) ->
   Some (run_stream_whole so input) = read_and_cut_str o input.
 Proof.
-  intros Hso Hnz Hnaf Hb Hde Hok. unfold run_stream_whole, run_stream, read_and_cut_str.
+  intros Hso Hnz Hnaf Hb Hok. unfold run_stream_whole, run_stream, read_and_cut_str.
   destruct (stream_opt_view o so Hso) as [_ [_ [_ [_ [_ [_ [Heol _]]]]]]]. rewrite <- Heol.
-  apply (C03_whole_input o so Hso Hnz Hnaf Hb Hde); [|exact Hok].
+  apply (C03_whole_input o so Hso Hnz Hnaf Hb); [|exact Hok].
   unfold total_len, push_rest. destruct input; cbn; lia.
 Qed.
 
@@ -1197,12 +1205,12 @@ Qed.
 Theorem C03_main o so l0 input :
   from_vec l0 = Some (o_bounds o) ->
   Forall item_nz l0 -> Forall closed_ordered (bounds_only l0) -> no_adjacent_fillers l0 ->
-  stream_opt o = Some so -> N.eqb (s_delim so) (s_eol so) = false ->
+  stream_opt o = Some so ->
   Forall (fun r => r = [] \/ no_straddle (Z.of_nat (length (split_on (s_delim so) r))) (items (o_bounds o)))
          (records (s_eol so) input) ->
   Some (run_stream_whole so input) = read_and_cut_str o input.
 Proof.
-  intros Hfv Hnz Hord Hnaf Hso Hde Hrec.
+  intros Hfv Hnz Hord Hnaf Hso Hrec.
   pose proof (stream_opt_forward o so Hso) as Hfb.
   assert (Hit : items (o_bounds o) = mark_last l0).
   { unfold from_vec in Hfv. destruct (bounds_only l0); [discriminate|]. injection Hfv as <-. reflexivity. }
@@ -1214,7 +1222,7 @@ Proof.
     apply andb_true_iff in Hfb. destruct Hfb as [Hfo _]. unfold is_forward_only in Hfo.
     apply andb_true_iff in Hfo. destruct Hfo as [Hfo _]. apply andb_true_iff in Hfo. apply Hfo. }
   destruct (from_vec_static l0 (o_bounds o) Hfv Hsorted) as [Hlast Hb].
-  apply (C03_run o so input Hso Hnz' Hnaf' Hb Hde).
+  apply (C03_run o so input Hso Hnz' Hnaf' Hb).
   eapply Forall_impl; [|exact Hrec]. intros r [->|Hns]; [left; reflexivity|]. right.
   apply static_domain; assumption.
 Qed.
